@@ -172,7 +172,7 @@ func (p *c20) Init(tier string) {
 	}
 }
 
-func (p *c20) NumCases() int { return len(p.lists) + len(p.fails) + len(p.peeks) }
+func (p *c20) NumCases() int { return len(p.lists) + len(p.fails) + len(p.peeks) + 1 }
 
 func (p *c20) sql(q *c20query) string {
 	var items []string
@@ -226,6 +226,9 @@ func (p *c20) sql(q *c20query) string {
 }
 
 func (p *c20) Describe(i int) any {
+	if i == len(p.lists)+len(p.fails)+len(p.peeks) {
+		return map[string]any{"kind": "numeric keys: every ordered pair of distinct keys over {0, 0.5, 1, 1.5, 2, 2.5, -1, -1.5, 1000000, 1000000.5, 1e21, 7} written as literals and read back in the same and in a later query, and a table whose rows name their key in a column: distinct numbers are distinct registers"}
+	}
 	if i >= len(p.lists)+len(p.fails) {
 		return map[string]any{"query": p.peeks[i-len(p.lists)-len(p.fails)], "explored": "every schedule within 2 (thorough 3) preemptions on tables of 1-3 rows"}
 	}
@@ -464,8 +467,62 @@ func (p *c20) runPeek(r *core.CaseResult, sql string) {
 	}
 }
 
+// runNumericKeys: keys written as numbers.  Two different numbers are two registers, whatever text
+// the key is kept under in the caller's map (which is not compared here).
+func (p *c20) runNumericKeys(r *core.CaseResult) {
+	r.Nontrivial = true
+	keys := []string{"0", "0.5", "1", "1.5", "2", "2.5", "-1", "-1.5", "1000000", "1000000.5", "1e21", "7"}
+	doc := map[string]any{"t": []any{map[string]any{"id": 1.0}}}
+	for _, k1 := range keys {
+		for _, k2 := range keys {
+			if k1 == k2 {
+				continue
+			}
+			vars := map[string]any{}
+			sql := fmt.Sprintf("SELECT GETVAR(%s) AS b1, SETVAR(%s, 'A'), GETVAR(%s) AS m2, SETVAR(%s, 'B'), GETVAR(%s) AS g1, GETVAR(%s) AS g2 FROM t", k1, k1, k2, k2, k1, k2)
+			o := gq.Run(gq.CloneMap(doc), sql, genql.WithVars(vars))
+			r.Execs++
+			cs := map[string]any{"sql": sql}
+			want := gq.Render([]any{map[string]any{"b1": nil, "m2": nil, "g1": "A", "g2": "B"}})
+			if o.Err != nil || o.Panic != "" || gq.Render(o.Rows) != want {
+				r.Fail("C20|numeric-keys|rows", fmt.Sprintf("%s: %s %v %s rows %s, register model %s", sql, o.Status(), o.Err, o.Panic, gq.Render(o.Rows), want), cs)
+				continue
+			}
+			sql2 := fmt.Sprintf("SELECT GETVAR(%s) AS g1, GETVAR(%s) AS g2 FROM t", k1, k2)
+			o2 := gq.Run(gq.CloneMap(doc), sql2, genql.WithVars(vars))
+			r.Execs++
+			want2 := gq.Render([]any{map[string]any{"g1": "A", "g2": "B"}})
+			if o2.Err != nil || gq.Render(o2.Rows) != want2 {
+				r.Fail("C20|numeric-keys|later-query", fmt.Sprintf("%s, then %s: %v rows %s, register model %s", sql, sql2, o2.Err, gq.Render(o2.Rows), want2), map[string]any{"sql": sql, "then": sql2})
+			}
+		}
+	}
+	// the key taken from a column: one register per distinct number, rows in source order
+	buckets := []float64{0.5, 1, 1.5, 2, 2.5, 2, 0.5, 1000000, 1000000.5, 3}
+	rows := []any{}
+	model := map[float64]any{}
+	var want []any
+	for i, b := range buckets {
+		rows = append(rows, map[string]any{"id": float64(i), "b": b})
+		before := model[b]
+		model[b] = float64(i)
+		want = append(want, map[string]any{"id": float64(i), "before": before, "after": float64(i)})
+	}
+	vars := map[string]any{}
+	sql := "SELECT id, GETVAR(b) AS before, SETVAR(b, id), GETVAR(b) AS after FROM t"
+	o := gq.Run(map[string]any{"t": rows}, sql, genql.WithVars(vars))
+	r.Execs++
+	if o.Err != nil || gq.Render(o.Rows) != gq.Render(want) {
+		r.Fail("C20|numeric-keys|column-key", fmt.Sprintf("%s on b = %v: %v rows %s, register model %s", sql, buckets, o.Err, gq.Render(o.Rows), gq.Render(want)), map[string]any{"sql": sql, "b": buckets})
+	}
+}
+
 func (p *c20) RunCase(i int) *core.CaseResult {
 	r := &core.CaseResult{}
+	if i == len(p.lists)+len(p.fails)+len(p.peeks) {
+		p.runNumericKeys(r)
+		return r
+	}
 	if i >= len(p.lists)+len(p.fails) {
 		p.runPeek(r, p.peeks[i-len(p.lists)-len(p.fails)])
 		return r
